@@ -239,6 +239,8 @@ def case_soc(ctx, rng, idx):
         return cache[a]
 
     sysa = check_real_space(ctx, get, s0, s1, common, [], alphas, wit, "SystemInterpolatorSOC", centres_differ)
+    for a_, s_ in cache.items():
+        monitors.assert_no_stale_caches(ctx, s_, "SOC.interpolate", dict(wit, alpha=a_))
     # the spin channels
     for ch, attr in ((0, "system_up"), (1, "system_down")):
         if ch == 1 and nspin == 1:
